@@ -2,10 +2,11 @@
 compared with the Lean models (typestate automaton, attribute validator, where-clause generator)."""
 import os, sys, subprocess, shutil, json, time
 
-NG_DIR = '/verif/harness/progs/ng'
 
 
 def main(ck, pid, cfg, tier, seed, replay):
+    NG_DIR = os.path.join(ck.VERIF, 'harness', 'progs', 'ng')
+    ngenv = dict(ck.ENV, CARGO_TARGET_DIR=os.path.join(ck.BUILD, 'ng'))
     t0 = time.time()
     failures, stats, seen, samples = [], dict(evaluations=0, by_verdict={}, unmodelled=0), set(), []
     build_fail = None
@@ -23,12 +24,12 @@ def main(ck, pid, cfg, tier, seed, replay):
             if os.path.exists('/repo/Cargo.lock'):
                 shutil.copyfile('/repo/Cargo.lock', os.path.join(NG_DIR, 'Cargo.lock'))
             # the library part (dependencies incl. scale-info from /repo) must build; then every bin on its own
-            lib = ck.sh(['cargo', 'check', '--offline', '--lib', '--quiet'], cwd=NG_DIR, timeout=3600)
+            lib = ck.sh(['cargo', 'check', '--offline', '--lib', '--quiet'], cwd=NG_DIR, timeout=3600, env=ngenv)
             if lib.returncode != 0:
                 build_fail = 'scale-info does not build: ' + lib.stdout[-3000:]
             else:
                 p = subprocess.run(['cargo', 'check', '--offline', '--bins', '--keep-going', '--message-format=json'], cwd=NG_DIR,
-                                   stdout=subprocess.PIPE, stderr=subprocess.DEVNULL, text=True, env=ck.ENV, timeout=7200)
+                                   stdout=subprocess.PIPE, stderr=subprocess.DEVNULL, text=True, env=ngenv, timeout=7200)
                 errs = {}
                 finished = set()
                 for l in p.stdout.splitlines():
